@@ -281,6 +281,53 @@ Proof.
   left. congruence.
 Qed.
 
+(* ---- the guard that restores uniqueness of the raw-encoding output: Gamma in the prime-order
+        subgroup (what a subgroup check in decodeProof would enforce) ---- *)
+Lemma ell_not_div_8 : 2 < ell -> ~ (ell | 8).
+Proof.
+  intros Hl Hd. pose proof (ell_prime W) as Hp.
+  change 8 with (2 * (2 * 2)) in Hd.
+  assert (H2 : (ell | 2)).
+  { apply prime_mult in Hd; [|exact Hp]. destruct Hd as [Hd|Hd]; [exact Hd|].
+    apply prime_mult in Hd; [|exact Hp]. destruct Hd; assumption. }
+  apply Z.divide_pos_le in H2; lia.
+Qed.
+
+Lemma torsion_free_part P : 2 < ell -> smul 8 P = zero -> smul ell P = zero -> P = zero.
+Proof.
+  intros Hl H8 Hell.
+  assert (Hrp : rel_prime ell 8) by (apply prime_rel_prime; [apply ell_prime | apply ell_not_div_8, Hl]).
+  destruct (rel_prime_bezout _ _ Hrp) as [u v Huv].
+  rewrite <- (smul_1 W P), <- Huv, smul_add_l, !smul_mul, Hell, H8, !smul_zero_r. apply add_0_l.
+Qed.
+
+Lemma smul_sub_r n P Q : smul n (sub P Q) = sub (smul n P) (smul n Q).
+Proof.
+  unfold Vrf.sub. rewrite smul_add_r. f_equal.
+  apply neg_unique. rewrite <- smul_add_r, add_neg_r. apply smul_zero_r.
+Qed.
+
+(* honest provers meet the guard: Gamma = x * (8 * E) is killed by ell *)
+Lemma honest_gamma_in_subgroup x t m : smul ell (output_enc W (prove W x t m)) = zero.
+Proof.
+  unfold prove, output_enc. rewrite smul_comm, ell_hash. apply smul_zero_r.
+Qed.
+
+Lemma output_enc_unique_in_subgroup x m p1 p2 :
+  2 < ell ->
+  smul ell (output_enc W p1) = zero -> smul ell (output_enc W p2) = zero ->
+  verify W (pubkey W x) p1 m = true -> verify W (pubkey W x) p2 m = true ->
+  output_enc W p1 = output_enc W p2 \/ lucky_hit W x m p1 \/ lucky_hit W x m p2.
+Proof.
+  intros Hl S1 S2 V1 V2.
+  destruct (accepted_gamma8_or_lucky x m p1 V1) as [E1|L1]; [|tauto].
+  destruct (accepted_gamma8_or_lucky x m p2 V2) as [E2|L2]; [|tauto].
+  left. destruct p1 as [[G1 c1] s1], p2 as [[G2 c2] s2]. unfold output_enc, output_cof in *.
+  apply sub_zero_eq. apply torsion_free_part; [exact Hl| |].
+  - rewrite smul_sub_r, E1, E2. apply sub_diag.
+  - rewrite smul_sub_r, S1, S2. apply sub_diag.
+Qed.
+
 (* ---- mutations: an accepted mutant evaluates the challenge hash at a fresh point ---- *)
 Lemma mutate_gamma_query Y Gm Gm' c s m :
   Gm' <> Gm -> query W Y (Gm', c, s) m <> query W Y (Gm, c, s) m.
@@ -367,6 +414,14 @@ Proof.
   - apply mutate_s_query. exact Hs.
 Qed.
 
+(* ECVRFVerify reduces s modulo ell (ScReduce) before use: s + j*ell is the same proof to the verifier
+   (the proof STRING is malleable in s; the output is not affected) *)
+Lemma verify_s_shift Y Gm c s j m : verify W Y (Gm, c, s + j * ell) m = verify W Y (Gm, c, s) m.
+Proof.
+  pose proof (prime_ge_2 _ (ell_prime W)) as Hl.
+  unfold verify, query. rewrite Z.mod_add by lia. reflexivity.
+Qed.
+
 End P.
 
 (* ---- statements used by Props.v ---- *)
@@ -375,6 +430,25 @@ Lemma transport_vrf (W : World) (dec : list N -> option (proof W)) Y m (pi : lis
   V.C16.Model.verify_via (verify_bytes W dec Y m) (V.C16.Model.transport pi) =
   V.C16.Model.verify_via (verify_bytes W dec Y m) pi.
 Proof. exact (V.C16.Proofs.verify_transport (verify_bytes W dec Y m) pi). Qed.
+
+(* the headline clause: an honestly generated proof, encoded to 80 bytes by an encoder that the decoder
+   inverts on this proof, still verifies after the header's big-integer round trip *)
+Lemma complete_after_transport (W : World) (enc : proof W -> list N) (dec : list N -> option (proof W))
+  x t (m : Msg W) :
+  let p := prove W x t m in
+  dec (enc p) = Some p -> V.Base.Hex.bytes_ok (enc p) -> length (enc p) = V.C16.Model.prove_size ->
+  V.C16.Model.verify_via (verify_bytes W dec (pubkey W x) m) (V.C16.Model.transport (enc p)) = true.
+Proof.
+  cbv zeta. intros Hdec Hok Hlen.
+  rewrite (V.C16.Proofs.verify_transport _ _ Hok Hlen).
+  unfold V.C16.Model.verify_via. rewrite (V.C16.Proofs.pad80_id _ Hlen).
+  unfold verify_bytes. rewrite Hdec. apply complete.
+Qed.
+
+Lemma s_reduced_mod_ell (W : World) (Y Gm : G W) (c s j : Z) (m : Msg W) :
+  verify W Y (Gm, c, s + j * ell W) m = verify W Y (Gm, c, s) m /\
+  output_enc W (Gm, c, s + j * ell W) = output_enc W (Gm, c, s).
+Proof. split; [apply verify_s_shift | reflexivity]. Qed.
 
 Lemma deterministic (W : World) (x t : Z) (m : Msg W) p1 p2 :
   p1 = prove W x t m -> p2 = prove W x t m -> p1 = p2.
